@@ -219,19 +219,24 @@ def pkg_frames(acc):
             if fn.startswith(PKG) and "zz_verif_" not in f and f != "<autogenerated>"]
 
 
-def attribute(rep, known):
+def attribute(rep, known, fields_at=None):
     """The known finding a race report belongs to, or None: one of the two
     accesses happens in (or, for entries with depth > 1, within that many
     package frames of) a known site's function, or is the construction of an
-    object that a known unsynchronised pointer read publishes."""
+    object that a known unsynchronised pointer read publishes.  Among several
+    entries of one function the one whose field is accessed on that line (by
+    the extracted facts) is preferred."""
     for acc in rep["accesses"]:
         fr = pkg_frames(acc)
-        for idx, (fn, _, _) in enumerate(fr):
-            for e in known:
-                if e["function"] == fn and idx < e.get("depth", 1):
-                    return e
-                if idx == 0 and fn in e.get("publishes", []):
-                    return e
+        for idx, (fn, f, line) in enumerate(fr):
+            cands = [e for e in known if (e["function"] == fn and idx < e.get("depth", 1))
+                     or (idx == 0 and fn in e.get("publishes", []))]
+            if cands:
+                here = (fields_at or {}).get((f, line), ())
+                for e in cands:
+                    if e["field"] in here:
+                        return e
+                return cands[0]
     return None
 
 
@@ -329,10 +334,15 @@ def run(tier, seed):
         st = fut_stress.result()
         runs = [st]
 
+        fields_at = {}
+        for x in (data["facts"] if data else []):
+            if x["kind"] == "access":
+                fields_at.setdefault((x["file"], x["line"]), set()).add(x.get("st", "") + "." + x["fld"])
+
         def classify(st):
             bad, hits = [], {}
             for r in st["reports"]:
-                e = attribute(r, known)
+                e = attribute(r, known, fields_at)
                 if e is None:
                     bad.append(r)
                 else:
